@@ -281,14 +281,16 @@ pub fn check_cuts(input: &[u8], cuts: &[usize]) -> Result<bool, String> {
     Ok(nt)
 }
 
+// (both sides in canonical form: palette colour k and 256-colour index k < 16 are the same
+// terminal colour, whichever of the two spellings the extractor keeps)
 pub fn model_chars(bytes: &[u8]) -> Vec<(MStyle, char)> {
-    sgr::styled_chars(bytes, vt::is_ws_control)
+    sgr::styled_chars(bytes, vt::is_ws_control).into_iter().map(|(s, c)| (s.canon(), c)).collect()
 }
 
 pub fn real_chars(chunks: &[&[u8]]) -> Vec<(MStyle, char)> {
     extract_chunked(chunks)
         .into_iter()
-        .map(|(s, c)| (from_style(s), c))
+        .map(|(s, c)| (from_style(s).canon(), c))
         .collect()
 }
 
